@@ -898,6 +898,7 @@ class Filter:
     def evaluate(self, left: object, context: RenderContext) -> object:
         func = context.filter(self.name, token=self.token)
         positional_args, keyword_args = self.evaluate_args(context)
+        self._raise_for_reserved_arguments(func, keyword_args)
         try:
             return func(left, *positional_args, **keyword_args)
         except (TypeError, ValueError, ArithmeticError, LookupError) as err:
@@ -912,6 +913,7 @@ class Filter:
     async def evaluate_async(self, left: object, context: RenderContext) -> object:
         func = context.filter(self.name, token=self.token)
         positional_args, keyword_args = await self.evaluate_args_async(context)
+        self._raise_for_reserved_arguments(func, keyword_args)
 
         try:
             return func(left, *positional_args, **keyword_args)
@@ -920,6 +922,21 @@ class Filter:
         except LiquidTypeError as err:
             err.token = self.token
             raise err
+
+    def _raise_for_reserved_arguments(
+        self, func: object, keyword_args: dict[str, object]
+    ) -> None:
+        # `context` and `environment` are injected by the engine (see
+        # `RenderContext.filter`). A template must not be able to replace them with
+        # its own values.
+        injected = getattr(func, "keywords", None)
+        if injected:
+            for name in keyword_args:
+                if name in injected:
+                    raise LiquidTypeError(
+                        f"{self.name}: '{name}' is not a valid keyword argument",
+                        token=self.token,
+                    )
 
     def evaluate_args(
         self, context: RenderContext
